@@ -162,9 +162,9 @@ def callers_extra_args_are_not_mutated(ctx):
         for m in cl.methods.values():
             for n in own_nodes(m.node):
                 hit = None
-                if isinstance(n, ast.Assign) and isinstance(n.targets[0], ast.Subscript) and norm(n.targets[0].value).endswith('call_args.extra_args'):
+                if isinstance(n, ast.Assign) and isinstance(n.targets[0], ast.Subscript) and q.is_call_args_attr(m, n.targets[0].value):
                     hit = n
-                if isinstance(n, ast.Call) and isinstance(n.func, ast.Attribute) and n.func.attr in MUTATORS and norm(n.func.value).endswith('call_args.extra_args'):
+                if isinstance(n, ast.Call) and isinstance(n.func, ast.Attribute) and n.func.attr in MUTATORS and q.is_call_args_attr(m, n.func.value):
                     hit = n
                 if hit is not None:
                     mutating.setdefault(cl, []).append((m, hit))
